@@ -21,7 +21,7 @@ META = dict(
               "TLC-enumerated corruption table replayed on an in-process node (ConnectTip)",
 )
 
-ACTIONS = ("wblk", "wundo", "flush", "prune", "flip", "trunc", "restore")
+ACTIONS = ("wblk", "wundo", "flush", "prune", "reindex", "flip", "trunc", "restore")
 
 
 def measure(ctx, binary):
@@ -35,7 +35,7 @@ def measure(ctx, binary):
 def order_edges(g):
     """path_cover pops the last edge of a node first: put the fault edges last so that one path tries fault, restore, fault, ...
     in a state before it moves on with a write."""
-    rank = {"flip": 3, "trunc": 3, "restore": 3, "flush": 2, "wundo": 1, "prune": 1, "wblk": 0}
+    rank = {"flip": 3, "trunc": 3, "restore": 3, "flush": 2, "wundo": 1, "prune": 1, "reindex": 1, "wblk": 0}
     for k in g.out:
         g.out[k].sort(key=lambda e: (rank.get(e[0][0], 0), vflib.canon(e[0])))
 
